@@ -7,6 +7,9 @@ Extracted with `ast` only:
               strings built in `serialise`, and the indent argument of the two recursive calls,
               each as a list of segments ("$var" for an interpolated variable, "$name"/"$value"
               for the node's fields whether escaped or not, anything else is literal text).
+  * `parseGuards` — in `Keyvalues.parse`, whether the two flag-replace tests
+              `can_flag_replace and cur_block_contents[-1]...` are guarded by `cur_block_contents and`
+              (unguarded they raise IndexError on an empty block).
 The model `C01.serKV` is hand written for the expected shape (checked by `C01_gen_shape`) and takes
 `cfg` as a parameter, so that it follows the source as coded.
 """
